@@ -6,45 +6,49 @@ From SAV.orm Require Import Version.
 Open Scope Z_scope.
 
 Definition as_row (t : tree) : option (Z * row) :=
-  match t with L [I k; I x; I v] => Some (k, {| rx := x; rv := v |}) | _ => None end.
+  match t with L [I k; I x; I y; I v] => Some (k, {| rx := (x, y); rv := v |}) | _ => None end.
 Definition as_op (t : tree) : option (nat * op) :=
   match t with
   | L [I i; I o; I k; I p] =>
       if i <? 0 then None else
       let n := Z.to_nat i in
-      if o =? 0 then Some (n, Load k) else if o =? 1 then Some (n, SetX k p) else if o =? 2 then Some (n, Del k)
+      if o =? 0 then Some (n, Load k) else if o =? 1 then Some (n, SetX k false p) else if o =? 2 then Some (n, Del k)
       else if o =? 3 then Some (n, Flush) else if o =? 4 then Some (n, Commit) else if o =? 5 then Some (n, Rollback)
+      else if o =? 6 then Some (n, SetX k true p)
       else None
   | _ => None
   end.
 
 Definition of_res (r : res) : tree :=
   match r with
-  | RNone => L [I 0] | RFound x v => L [I 1; I x; I v]
+  | RNone => L [I 0] | RFound x v => L [I 1; I (fst x); I (snd x); I v]
   | ROk => L [I 0] | RStale => L [I 1] | RBusy => L [I 2]
   end.
 Definition of_stmt (s : stmt) : tree :=
   match s with
   | Select k => L [I 1; I k]
-  | Update k p nv wv => L [I 2; I k; I p; of_optZ nv; I wv]
+  | Update k px py nv wv => L [I 2; I k; of_optZ px; of_optZ py; of_optZ nv; I wv]
   | Delete ps => L [I 3; L (map (fun kv => L [I (fst kv); I (snd kv)]) ps)]
   end.
-Definition of_rows (r : rows) : tree := L (map (fun p => L [I (fst p); I (rx (snd p)); I (rv (snd p))]) r).
+Definition of_rows (r : rows) : tree :=
+  L (map (fun p => L [I (fst p); I (fst (rx (snd p))); I (snd (rx (snd p))); I (rv (snd p))]) r).
 
 Section R.
-Variables (server sane_rc sane_multi : bool) (eoc : nat -> bool).
+Variables (server sane_rc sane_multi : bool) (eoc : nat -> bool) (joined : bool).
 Fixpoint observe (l : list (nat * op)) (s : state) : list tree :=
   match l with
   | [] => []
   | (i, o) :: r =>
       let (s1, rs) := step server sane_rc sane_multi eoc Z.succ i o s in
-      L [of_res rs; L (map of_stmt (stmts server sane_rc sane_multi Z.succ i o s rs)); of_rows (com (sdb s1))]
+      L [of_res rs; L (map of_stmt (stmts server sane_rc sane_multi Z.succ joined i o s rs)); of_rows (com (sdb s1))]
       :: observe r s1
   end.
 End R.
 
 (* input  L [I mode; I dialect; L eocs; L rows; L ops]
-     mode 0 = client-side version_id_generator (v + 1), 1 = server-side (SET v = v + 1 ... RETURNING v)
+     mode 0 = client-side version_id_generator (v + 1), 1 = server-side (SET v = v + 1 ... RETURNING v),
+          2 = client-side, three-level joined-table inheritance (version in the root table)
+     rows L [id; x; y; v];  op codes 0 load, 1 set x, 2 delete, 3 flush, 4 commit, 5 rollback, 6 set y
      dialect 0 = sane rowcount + sane multi rowcount, 1 = sane rowcount only, 2 = neither
    output L [ L [result; L statements; L committed-rows] per operation ] *)
 Definition run_case (t : tree) : tree :=
@@ -52,7 +56,7 @@ Definition run_case (t : tree) : tree :=
   | L [I mode; I dial; te; tr; tops] =>
       match as_list_of as_bool te, as_list_of as_row tr, as_list_of as_op tops with
       | Some eocs, Some r0, Some ops =>
-          L (observe (mode =? 1) (dial <? 2) (dial <? 1) (fun i => nth i eocs false) ops (init r0))
+          L (observe (mode =? 1) (dial <? 2) (dial <? 1) (fun i => nth i eocs false) (mode =? 2) ops (init r0))
       | _, _, _ => bad_input
       end
   | _ => bad_input
